@@ -642,7 +642,9 @@ func (p *Path) violation(label string, negOf *Term, detail string) {
 	v.Decisions = append([]int32(nil), p.decisions...)
 	r.mu.Lock()
 	r.stat(label).Violated++
-	if len(r.violations) < 20 {
+	// keep up to 20 counterexamples, and always the first two of every label
+	// (a flood of one label must not hide a different violation)
+	if len(r.violations) < 20 || r.stat(label).Violated <= 2 {
 		r.violations = append(r.violations, v)
 	}
 	r.mu.Unlock()
